@@ -37,7 +37,7 @@ DRIVER = "C14"
 INTERACTIVE = True
 NETS = {"btc": BTC, "ltc": LTC}
 RULE = ("correspondence: one driver line per call (merkle, merkle_pair, parse_header, stream_header, block_hash, block_id, "
-        "set_nonce_hash, block_history, block_parse, post_unpack, parse_merkleblock) plus spec lines (merkle_spec, build, matched); "
+        "set_nonce_hash, block_history, block_parse, block_parse_call, post_unpack, parse_merkleblock) plus spec lines (merkle_spec, build, matched); "
         "distinct = distinct line; non-trivial = the model returns a value (not an exception)")
 PARTIAL = ["transaction wire codec is abstract in the theorems (hypotheses tx_frame / tx_parser_consumes / tx_parser_exact; "
            "C07 owns it); in the correspondence run transactions are parsed by the real Tx class through an oracle",
@@ -350,6 +350,273 @@ def impl_block_parse(coin, inc, chk, data):
                                  canon(len(data) - f.tell()), call(b.as_bin), call(lambda: bytes.fromhex(b.id())))
 
 
+# ---- calling conventions: every public entry point, positionally in the PINNED order, by keyword, with defaults -----
+_REQ = object()
+PINNED = {      # the documented signatures (the same list is pinned in coq/Proofs/C14Tie.v against Gen/GenSigC14.v)
+    "Block": [("version", _REQ), ("previous_block_hash", _REQ), ("merkle_root", _REQ), ("timestamp", _REQ),
+              ("difficulty", _REQ), ("nonce", _REQ)],
+    "Block.parse": [("f", _REQ), ("include_transactions", True), ("include_offsets", None), ("check_merkle_hash", True)],
+    "Block.parse_as_header": [("f", _REQ)],
+    "Block.from_bin": [("bytes", _REQ)],
+    "Block.set_nonce": [("nonce", _REQ)],
+    "Block.set_txs": [("txs", _REQ), ("check_merkle_hash", True)],
+    "Block.stream": [("f", _REQ)],
+    "Block.stream_header": [("f", _REQ)],
+    "merkle": [("hashes", _REQ), ("hash_f", double_sha256)],
+    "merkle_pair": [("hashes", _REQ), ("hash_f", _REQ)],
+    "message.parse": [("message_name", _REQ), ("data", _REQ)],
+}
+_PYTOK = {"T": True, "F": False, "N": None, "i0": 0, "i1": 1, "i2": 2}
+
+
+def call_styles(label, values):
+    """[(style name, positional args, keyword args)] for one intended binding `values` (list in pinned order, entries
+    may be omitted at the end only if they equal the pinned default)"""
+    prm = PINNED[label]
+    names = [n for n, _ in prm]
+    vals = list(values)
+    out = [("positional", tuple(vals), {}), ("keyword", (), dict(zip(names, vals))),
+           ("keyword-reversed", (), dict(reversed(list(zip(names, vals)))))]
+    for k in range(1, len(vals)):
+        out.append(("mixed-%d" % k, tuple(vals[:k]), dict(zip(names[k:], vals[k:]))))
+    # rely on defaults wherever the intended value IS the pinned default
+    nd = [(n, v) for (n, d), v in zip(prm, vals) if not (d is not _REQ and v is d)]
+    if len(nd) < len(vals):
+        out.append(("defaults-keyword", (), dict(nd)))
+        k = len(vals)
+        while k > 0 and prm[k - 1][1] is not _REQ and vals[k - 1] is prm[k - 1][1]:
+            k -= 1
+        out.append(("defaults-positional", tuple(vals[:k]), {}))
+        if k >= 1:
+            out.append(("defaults-mixed", tuple(vals[:1]), dict((n, v) for n, v in nd if n != names[0])))
+    return out
+
+
+def _obs_block(b, raw):
+    """what a caller can see of a parsed block, incl. the offsets recorded when include_offsets is set"""
+    offs = []
+    for t in b.txs:
+        o = getattr(t, "offset_in_block", None)
+        offs.append(None if o is None else (o if raw[o:o + len(t.as_bin())] == t.as_bin() else "WRONG"))
+    return (_hdr_tuple(b), [t.hash() for t in b.txs], offs, b.as_bin())
+
+
+def chk_callstyles(inp):
+    what = inp["what"]
+    if what == "block_parse":
+        net = NETS[inp["coin"]]
+        hdr = inp["hdr"]
+        hdr = (hdr[0], bytes.fromhex(hdr[1]), hdr[2], hdr[3], hdr[4])
+        txbins = [bytes.fromhex(t) for t in inp["txs"]]
+        txids = [bytes.fromhex(t) for t in inp["txids"]]
+        raw = block_wire(hdr, txbins, txids)
+        if inp["bad"]:
+            x = bytearray(raw)
+            if inp["bad"] == "root":
+                x[36 + 7] ^= 0x10
+            else:
+                x[-1] ^= 0x01
+            raw = bytes(x)
+        inc, offs, chk = (_PYTOK[t] for t in inp["args"])
+        # reference verdict, from the meaning of the three parameters
+        must_raise = bool(inc) and bool(chk) and bool(inp["bad"])
+        for style, pos, kw in call_styles("Block.parse", [None, inc, offs, chk]):
+            f = io.BytesIO(raw)
+            if pos:
+                pos = (f,) + pos[1:]
+            else:
+                kw = dict(kw, f=f)
+            try:
+                b = net.block.parse(*pos, **kw)
+            except BadMerkleRootError:
+                if not must_raise:
+                    return {"kind": "call-style-changes-meaning", "style": style, "detail": "BadMerkleRootError although "
+                            "the check is off or the block is consistent", "args": inp["args"]}
+                continue
+            except Exception as e:
+                return {"kind": "call-style-raises", "style": style, "args": inp["args"],
+                        "detail": "%s: %s" % (type(e).__name__, e)}
+            if must_raise:
+                return {"kind": "bad-merkle-root-accepted", "what": "call style " + style, "style": style,
+                        "args": inp["args"], "n": len(txbins)}
+            exp_txs = len(txbins) if inc else 0
+            o = _obs_block(b, raw)
+            if len(o[1]) != exp_txs or o[0][2] != raw[36:68]:
+                return {"kind": "call-style-changes-meaning", "style": style, "args": inp["args"],
+                        "detail": "%d transactions parsed, expected %d" % (len(o[1]), exp_txs)}
+            want_offs = bool(offs) and bool(inc)
+            if any((x is None) == want_offs or x == "WRONG" for x in o[2]):
+                return {"kind": "call-style-changes-meaning", "style": style, "args": inp["args"],
+                        "detail": "offset_in_block %s" % o[2]}
+        return None
+    if what == "ctor":
+        f = inp["fields"]
+        vals = [f[0], bytes.fromhex(f[1]), bytes.fromhex(f[2]), f[3], f[4], f[5]]
+        ref = hdr80(*vals)
+        for style, pos, kw in call_styles("Block", vals):
+            for cls in (Block, BTC.block, LTC.block):
+                b = cls(*pos, **kw)
+                if b.as_bin() != ref or b.id() != dsha(ref)[::-1].hex():
+                    return {"kind": "call-style-changes-meaning", "style": style, "detail": "constructor " + cls.__name__}
+        b = Block(*vals)
+        for style, pos, kw in call_styles("Block.set_nonce", [f[5] ^ 1]):
+            b.set_nonce(*pos, **kw)
+            if b.as_bin() != ref[:76] + struct.pack("<L", f[5] ^ 1) or b.id() != dsha(b.as_bin())[::-1].hex():
+                return {"kind": "call-style-changes-meaning", "style": style, "detail": "set_nonce"}
+            b.set_nonce(f[5])
+        for label, meth in (("Block.stream", "stream"), ("Block.stream_header", "stream_header")):
+            for style, pos, kw in call_styles(label, [None]):
+                out = io.BytesIO()
+                getattr(b, meth)(*((out,) if pos else ()), **(dict(f=out) if kw else {}))
+                if out.getvalue() != ref:
+                    return {"kind": "call-style-changes-meaning", "style": style, "detail": meth}
+        for style, pos, kw in call_styles("Block.parse_as_header", [None]):
+            s_ = io.BytesIO(ref + b"zz")
+            b2 = Block.parse_as_header(*((s_,) if pos else ()), **(dict(f=s_) if kw else {}))
+            if b2.as_bin() != ref or s_.tell() != 80:
+                return {"kind": "call-style-changes-meaning", "style": style, "detail": "parse_as_header"}
+        return None
+    if what == "set_txs":
+        net = NETS[inp["coin"]]
+        hdr = inp["hdr"]
+        hdr = (hdr[0], bytes.fromhex(hdr[1]), hdr[2], hdr[3], hdr[4])
+        txbins = [bytes.fromhex(t) for t in inp["txs"]]
+        chk = _PYTOK[inp["args"][0]]
+        for bad in (False, True):
+            for style, pos, kw in call_styles("Block.set_txs", [None, chk]):
+                txs = [net.tx.from_bin(t) for t in txbins]
+                root = ref_root([t.hash() for t in txs])
+                if bad:
+                    root = bytes([root[0] ^ 1]) + root[1:]
+                b = net.block(hdr[0], hdr[1], root, hdr[2], hdr[3], hdr[4])
+                if pos:
+                    pos = (txs,) + pos[1:]
+                else:
+                    kw = dict(kw, txs=txs)
+                try:
+                    b.set_txs(*pos, **kw)
+                    raised = False
+                except BadMerkleRootError:
+                    raised = True
+                if raised != (bad and bool(chk)):
+                    return {"kind": "bad-merkle-root-accepted" if not raised else "call-style-changes-meaning",
+                            "what": "set_txs " + style, "style": style, "args": inp["args"], "n": len(txbins)}
+                if [t.as_bin() for t in b.txs] != txbins:
+                    return {"kind": "call-style-changes-meaning", "style": style, "detail": "set_txs lost transactions"}
+        data = block_wire(hdr, txbins, [bytes.fromhex(t) for t in inp["txids"]])
+        for style, pos, kw in call_styles("Block.from_bin", [data]):
+            if net.block.from_bin(*pos, **kw).as_bin() != data:
+                return {"kind": "call-style-changes-meaning", "style": style, "detail": "from_bin"}
+        return None
+    if what == "merkle":
+        l = [bytes.fromhex(h) for h in inp["hashes"]]
+        exp = ref_root(l)
+        forms = call_styles("merkle", [l, double_sha256])
+        for style, pos, kw in forms:
+            pos = tuple(list(a) if isinstance(a, list) else a for a in pos)
+            kw = dict((k, list(v) if isinstance(v, list) else v) for k, v in kw.items())
+            if merkle(*pos, **kw) != exp:
+                return {"kind": "merkle-root-differs-from-definition", "style": style, "n": len(l)}
+        exp_s = ref_root(l, sha)
+        for style, pos, kw in call_styles("merkle", [l, sha]):
+            if merkle(*pos, **kw) != exp_s:
+                return {"kind": "merkle-root-differs-from-definition", "style": style, "n": len(l), "hash": "sha"}
+        row = [dsha(a + b) for a, b in zip((l + l[-1:])[0::2], (l + l[-1:])[1::2])] if len(l) % 2 else \
+              [dsha(a + b) for a, b in zip(l[0::2], l[1::2])]
+        for style, pos, kw in call_styles("merkle_pair", [l, double_sha256]):
+            if list(merkle_pair(*pos, **kw)) != row:
+                return {"kind": "call-style-changes-meaning", "style": style, "detail": "merkle_pair"}
+        return None
+    if what == "message_parse":
+        txids, m = _proof_of(inp)
+        n, hashes, fl, _ = ref_build(txids, m)
+        data = mb_wire(ref_root(txids), n, hashes, fl)
+        exp = [t for t, b in zip(txids, m) if b]
+        for style, pos, kw in call_styles("message.parse", ["merkleblock", data]):
+            for net in (BTC, LTC):
+                got = [bytes(x) for x in net.message.parse(*pos, **kw)["tx_hashes"]]
+                if got != exp:
+                    return {"kind": "honest-proof-wrong-matches", "style": style, "n": n}
+        return None
+    return {"kind": "unknown-callstyle-check"}
+
+
+def gen_callstyle_inputs(rng, tier):
+    vals_inc = ["T", "F", "i1", "i0"]
+    vals_off = ["N", "F", "T", "i0", "i1"]
+    vals_chk = ["T", "F", "N", "i0", "i1"]
+    blocks = []
+    for coin, n in (("btc", 1), ("btc", 2), ("ltc", 3), ("btc", 5)) if tier == "quick" else \
+            (("btc", 1), ("btc", 2), ("btc", 3), ("ltc", 1), ("ltc", 3), ("btc", 5), ("btc", 8), ("ltc", 8)):
+        binp = _block_inp(rng, coin, n)
+        if "generator_error" not in binp:
+            blocks.append(binp)
+    for bi, binp in enumerate(blocks):
+        for a in vals_inc:
+            for b in vals_off:
+                for c in vals_chk:
+                    for bad in ("root", "tx", ""):
+                        if tier == "quick" and bi > 0 and not (b in ("N", "F", "i0") and c in ("T", "i1")) and rng.random() < 0.7:
+                            continue
+                        yield dict(binp, what="block_parse", args=[a, b, c], bad=bad)
+        for c in vals_chk:
+            yield dict(binp, what="set_txs", args=[c])
+    for f in itertools.islice(gen_header_fields(rng, "quick"), 400):
+        if len(f[1]) == 32 and len(f[2]) == 32 and all(f[k] <= 0xffffffff for k in (0, 3, 4, 5)):
+            yield {"what": "ctor", "fields": [f[0], f[1].hex(), f[2].hex(), f[3], f[4], f[5]]}
+            if tier == "quick" and rng.random() < 0.8:
+                continue
+    for n in list(range(1, 10)) + [16, 17, 33]:
+        yield {"what": "merkle", "hashes": [h.hex() for h in rand_hashes(rng, n)]}
+    for n in (1, 2, 3, 5, 7, 8):
+        txids = rand_hashes(rng, n)
+        m = [rng.random() < 0.5 for _ in range(n)]
+        yield {"what": "message_parse", "txids": [t.hex() for t in txids], "matches": "".join("1" if b else "0" for b in m)}
+
+
+def impl_block_parse_call(coin, pos, kw, data):
+    f = io.BytesIO(data)
+    try:
+        b = NETS[coin].block.parse(f, *[_PYTOK[t] for t in pos], **dict((k, _PYTOK[t]) for k, t in kw))
+    except Exception as e:
+        return "!" + exn_tag(e)
+    return "(%s %s %s %s %s)" % (canon(_hdr_tuple(b)), canon([tx.hash() for tx in b.txs]),
+                                 canon(len(data) - f.tell()), call(b.as_bin), call(lambda: bytes.fromhex(b.id())))
+
+
+def gen_parse_calls(rng, tier):
+    """(coin, pos tokens, kw (name, token) pairs, bytes): call forms of Block.parse incl. the refusals"""
+    names = ["include_transactions", "include_offsets", "check_merkle_hash"]
+    toks = ["T", "F", "N", "i0", "i1"]
+    streams = []
+    for coin, n in (("btc", 1), ("btc", 2), ("ltc", 3)):
+        hdr, txbins, txids = rand_block_parts(rng, coin, n)
+        good = block_wire(hdr, txbins, txids)
+        bad = bytearray(good)
+        bad[-1] ^= 1
+        streams += [(coin, good), (coin, bytes(bad))]
+    forms = []
+    for a in toks:
+        forms.append(([a], []))
+        for b in toks:
+            forms.append(([a, b], []))
+            for c in toks:
+                forms.append(([a, b, c], []))
+                forms.append(([], [(names[0], a), (names[1], b), (names[2], c)]))
+                forms.append(([], [(names[2], c), (names[0], a), (names[1], b)]))
+                forms.append(([a], [(names[2], c), (names[1], b)]))
+                forms.append(([a, b], [(names[2], c)]))
+    forms += [([], []), ([], [(names[1], "N")]), ([], [(names[1], "F")]), ([], [(names[1], "T")]), ([], [(names[2], "T")]),
+              ([], [(names[2], "F")]), ([], [(names[2], "N")]),
+              (["T", "N", "T", "T"], []), (["T"], [(names[0], "T")]), (["T", "N"], [(names[1], "N")]),
+              ([], [("check_merkle", "T")]), ([], [("offsets", "N")]), (["T", "N", "T"], [(names[2], "T")])]
+    for coin, data in streams:
+        for pos, kw in forms:
+            if tier == "quick" and len(pos) + len(kw) == 3 and rng.random() < 0.55:
+                continue
+            yield coin, pos, kw, data
+
+
 def wire_expressible(total, hashes, flags, root):
     return 0 <= total < (1 << 32) and len(root) == 32 and all(len(h) == 32 for h in hashes)
 
@@ -631,6 +898,16 @@ def model_cases(rng, tier):
         block_streams = []
         msg = "!HARNESS:block generator raised %s: %s" % (type(e).__name__, str(e)[:80])
         yield Case("generator_failure", (lambda msg=msg: msg))
+    try:
+        parse_calls = list(gen_parse_calls(rng, tier))
+    except Exception as e:
+        parse_calls = []
+        msg = "!HARNESS:block generator raised %s: %s" % (type(e).__name__, str(e)[:80])
+        yield Case("generator_failure", (lambda msg=msg: msg))
+    for coin, pos, kw, data in parse_calls:
+        yield Case("block_parse_call s%s [%s] [%s] %s" % (coin, ",".join(pos), ",".join("%s=%s" % kv for kv in kw), arg(data)),
+                   (lambda coin=coin, pos=pos, kw=kw, data=data: impl_block_parse_call(coin, pos, kw, data)),
+                   {"pos": pos, "kw": kw})
     for coin, inc, chk, data in block_streams:
         yield Case("block_parse s%s %s %s %s" % (coin, arg(inc), arg(chk), arg(data)),
                    (lambda coin=coin, inc=inc, chk=chk, data=data: impl_block_parse(coin, inc, chk, data)))
@@ -1051,6 +1328,8 @@ def prop_cases(rng, tier):
             continue
         fj = [f[0], f[1].hex(), f[2].hex(), f[3], f[4], f[5]]
         yield PropCase("header_fields", {"fields": fj}, (lambda fj=fj: chk_header_fields(fj)))
+    for inp in gen_callstyle_inputs(rng, tier):
+        yield PropCase("callstyles", inp, (lambda inp=inp: _guard(chk_callstyles, inp)))
     kk = 0
     for f, ops in gen_histories(rng, tier, valid_only=True):
         kk += 1
@@ -1090,7 +1369,16 @@ def prop_cases(rng, tier):
             yield PropCase("corrupt", inp2, (lambda inp2=inp2: chk_corrupt(inp2)))
 
 
+def _guard(fn, inp):
+    try:
+        return fn(inp)
+    except Exception as e:
+        return {"kind": "api-call-raises", "detail": "%s: %s" % (type(e).__name__, e), "what": inp.get("what")}
+
+
 def replay_input(check, inp):
+    if check == "callstyles":
+        return _guard(chk_callstyles, inp)
     if check == "history":
         return chk_history(inp)
     if check == "dup_attack":
@@ -1151,6 +1439,10 @@ def search(rng, tier, disagreements, known_ids):
                 f = [int(toks[1][1:], 16), toks[2][1:], toks[3][1:], int(toks[4][1:], 16), int(toks[5][1:], 16), int(toks[6][1:], 16)]
                 if len(f[1]) == 64 and len(f[2]) == 64 and all(f[k] <= 0xffffffff for k in (0, 3, 4, 5)):
                     cands.append(PropCase("header_fields", {"fields": f}, (lambda f=f: chk_header_fields(f))))
+            elif fn == "block_parse_call":
+                for inp in gen_callstyle_inputs(rng, "quick"):
+                    if inp["what"] in ("block_parse", "set_txs"):
+                        cands.append(PropCase("callstyles", inp, (lambda inp=inp: _guard(chk_callstyles, inp))))
             elif fn == "block_parse":
                 coin = toks[1][1:]
                 for n in (1, 2, 3, 5, 8):
